@@ -130,13 +130,15 @@ CHECKS.update({
                      "real pool) and at channel level (Channel.tla histories replayed, count compared after every poll).",
                 design="6/C06", note=BENCH_NOTE),
     "C14": dict(engine="bench", spec="Bench.tla (OpStart/Push/HE/OpDone for queries: one reply per accepted replier, in "
-                                     "connection order), PortClones.tla (SharedLinks)",
+                                     "connection order), PortClones.tla (SharedLinks), TaskSet.tla (WellFormed, NoLostTask, "
+                                     "NoLostNotify)",
                 text="TLC explores every completion order of 0..6 repliers with filtered subsets; on the real crate the "
                      "reply vector returned by Requestor::send (each reply encodes the replier, the mapped request and "
                      "the connection's reply map) must equal the specification's under every enumerated schedule and "
                      "free multi-threaded runs.",
-                design="6/C14", note=BENCH_NOTE + " Port-clone sharing is PortClones.tla (sequential histories); TaskSet "
-                                                  "and CachedRwLock are not specified at atomic level."),
+                design="6/C14", note=BENCH_NOTE + " Port-clone sharing is PortClones.tla (sequential histories); TaskSet.tla "
+                                                  "is model-checked at atomic level and bound by sequential replay; "
+                                                  "CachedRwLock is not specified at atomic level."),
     "C16": dict(engine="bench", spec="Bench.tla (InitOnceFirst; qualified names in handler contexts and reports)",
                 text="TLC explores every schedule of SimInit::init on hierarchies of depth <= 3 whose init scripts send "
                      "events and queries to models that are not initialised yet; on the real crate init must run once "
@@ -267,6 +269,10 @@ def main():
                                    "/verif/harness/src/chan.rs",
                  serves_properties=["C12", "C06"],
                  kind_free_text="TLC history enumeration + replay of every history on the real channel with counting wakers"),
+            dict(name="taskset", path="/verif/specs/TaskSet.tla /verif/specs/MC_TaskSet.tla /verif/tools/check_taskset.py "
+                                      "/verif/harness/src/taskset.rs",
+                 serves_properties=["C14"],
+                 kind_free_text="TLC interleaving exploration at atomic-step granularity + replay of every sequential history"),
             dict(name="seqds", path="/verif/specs/Sinks.tla /verif/specs/PQ.tla /verif/specs/PQ_Trace.tla "
                                     "/verif/tools/check_seqds.py /verif/harness/src/seqds.rs",
                  serves_properties=["C17", "C20"],
